@@ -224,12 +224,12 @@ def f32RoundInt (v : Int) : Int :=
 /-- second call of `bufr_apply_op_crefval`, made by the decoder/loader after the value of a
 `TYPE_CHNG_REF_VAL_OP` node is known: install the new reference as an override -/
 def applyOpCrefval (T : Tables) (ddo : DDO) (n : Node) : DDO :=
-  -- `value = bufr_value_get_float(cb->value)`; a missing float means "no redefinition"
-  let fv := n.val.getFloat
-  if n.enc.type = .chngRef ∧ ddo.changeRefValOp > 0 ∧ !fpMissingF fv then
+  -- `bufr_value_is_missing(cb->value)` means "no redefinition" (an integer -1 included: the library's
+  -- sentinel); otherwise `reference = bufr_value_get_int32(cb->value)`
+  if n.enc.type = .chngRef ∧ ddo.changeRefValOp > 0 ∧ !n.val.isMissing then
     if Desc.f n.desc = 0 then
       match T.fetchB n.desc with
-      | some _ => { ddo with overrides := (n.desc, fpToI32 fv) :: ddo.overrides }   -- `reference = value`
+      | some _ => { ddo with overrides := (n.desc, n.val.getInt32) :: ddo.overrides }
       | none => ddo
     else ddo
   else ddo
